@@ -13,7 +13,7 @@ use std::time::Duration;
 #[derive(Clone, Debug, Serialize, Deserialize, Hash)]
 pub enum HStep {
     /// a new status document, optionally with acquire/attest faults in front of the convergence and a key rotation
-    Doc { doc: StatusDoc, rotate: bool, acquire_faults: Vec<Fault>, attest_faults: Vec<Fault> },
+    Doc { doc: StatusDoc, rotate: bool, acquire_faults: Vec<Fault>, attest_faults: Vec<Fault>, #[serde(default)] foreign: bool },
     /// the status request itself fails / is invalid for a few polls: nothing may change
     StatusFailure { fault: Fault },
 }
@@ -42,16 +42,18 @@ pub fn fault() -> impl Strategy<Value = Fault> {
         2 => prop::sample::select(vec!["", "not json", "{\"version\":", "[]", "{}", "null"]).prop_map(|b| Fault::Garbage(b.to_string(), "application/json; charset=utf-8".to_string())),
         1 => Just(Fault::InvalidDoc),
         2 => (0u8..4).prop_map(Fault::InvalidDocKind),
+        3 => (prop::sample::select(vec![300u16, 400, 401, 403, 404, 410, 429, 500, 503]), 0u8..4).prop_map(|(c, k)| Fault::RefusedWithValidDoc(c, k)),
         1 => Just(Fault::Reset),
     ]
 }
 
 fn hstep() -> impl Strategy<Value = HStep> {
     prop_oneof![
-        7 => (status_doc(), prop::bool::weighted(0.2), prop::collection::vec(fault(), 0..3), prop::collection::vec(fault(), 0..3), prop::bool::weighted(0.6))
-            .prop_map(|(doc, rotate, acquire_faults, attest_faults, no_faults)| HStep::Doc {
+        7 => (status_doc(), prop_oneof![7 => Just((false, false)), 2 => Just((true, false)), 2 => Just((true, true))], prop::collection::vec(fault(), 0..3), prop::collection::vec(fault(), 0..3), prop::bool::weighted(0.6))
+            .prop_map(|(doc, (rotate, foreign), acquire_faults, attest_faults, no_faults)| HStep::Doc {
                 doc,
                 rotate,
+                foreign,
                 acquire_faults: if no_faults { vec![] } else { acquire_faults },
                 // an attestation answered 200 is a success whatever its body: only error statuses and resets are failures
                 attest_faults: if no_faults { vec![] } else { attest_faults.into_iter().enumerate().filter(|(_, f)| matches!(f, Fault::Status(..) | Fault::Reset)).map(|(i, f)| if i == 0 && f == Fault::Reset { Fault::ResetAfterCommit } else { f }).collect() },
@@ -64,7 +66,7 @@ pub fn strategy() -> impl Strategy<Value = Case> {
     (status_doc(), prop::collection::vec(hstep(), 1..8)).prop_map(|(first, steps)| Case { first, steps })
 }
 
-pub const RULE: &str = "generator: histories of 2-8 steps served by the reference secure-channel host to the real KeyKeeper (5 ms poll interval): status documents of protocol version 1.0 (secureChannelState in any letter case) or 2.0 (secureChannelEnabled, per-endpoint rule sets absent or generated as in C02 with id = hash of content, authorizationRules member sometimes absent), optional key rotation (the host forgets its latched key), 0-2 failing acquire and attest calls (error statuses with bodies, garbage bodies, connection resets) before they succeed, and status-failure steps (error status / not JSON / JSON failing validation / reset). A step takes effect at a poll boundary; the snapshot is taken after the host has answered two complete polls under it with no scripted fault left. oracle: after a stable non-failing step the agent's rules per endpoint equal the flattening of the latest document's item (or none), rule ids equal the document's, 'disabled' is reported iff the reference channel state is Disabled and then no key is held, otherwise the key is the one the host latched with the value it issued; when the reference channel state changed, the last three redirect-policy updates are (wireserver, imds, hostga) = (mode != disabled); after a status-failure step every observable equals the previous snapshot and no policy update happened. non-trivial: history with >= 1 rule replacement or removal, >= 1 enabled<->disabled flip and >= 1 failure step followed by recovery; distinct by hash of the history.";
+pub const RULE: &str = "generator: histories of 2-8 steps served by the reference secure-channel host to the real KeyKeeper (5 ms poll interval): status documents of protocol version 1.0 (secureChannelState in any letter case) or 2.0 (secureChannelEnabled, per-endpoint rule sets absent or generated as in C02 with id = hash of content, authorizationRules member sometimes absent), optional key rotation (the host forgets its latched key, or names a latched key this guest never stored), 0-2 failing acquire and attest calls (error statuses with bodies, garbage bodies, connection resets) before they succeed, and status-failure steps (error status / not JSON / JSON failing validation / a refusal code carrying a valid document of its own / reset). A step takes effect at a poll boundary; the snapshot is taken after the host has answered two complete polls under it with no scripted fault left. oracle: after a stable non-failing step the agent's rules per endpoint equal the flattening of the latest document's item (or none), rule ids equal the document's, 'disabled' is reported iff the reference channel state is Disabled and then no key is held, otherwise the key is the one the host latched with the value it issued; when the reference channel state changed, the last three redirect-policy updates are (wireserver, imds, hostga) = (mode != disabled); after a status-failure step every observable equals the previous snapshot and no policy update happened; after every converged step with a key the agent's own WireServer and IMDS clients make a signed request each and the host verifies it under the key registered for the announced id. non-trivial: history with >= 1 rule replacement or removal, >= 1 enabled<->disabled flip and >= 1 failure step followed by recovery; distinct by hash of the history.";
 
 #[derive(Clone, Debug, PartialEq, Eq)]
 pub enum RefState {
@@ -184,6 +186,11 @@ pub fn check_converged(rig: &KeeperRig, snap: &Snapshot, doc: &StatusDoc, prev_r
 }
 
 pub fn eval(rig: &KeeperRig, case: &Case, stats: &mut Stats) -> Outcome {
+    eval_mode(rig, case, stats, false)
+}
+
+/// `pairing_only` (C10's third engine): only a signed request that does not verify under the announced id is a failure
+pub fn eval_mode(rig: &KeeperRig, case: &Case, stats: &mut Stats, pairing_only: bool) -> Outcome {
     // fresh host
     rig.host.with(|s| {
         s.issued.clear();
@@ -210,9 +217,9 @@ pub fn eval(rig: &KeeperRig, case: &Case, stats: &mut Stats) -> Outcome {
         let mut pending_failure = false;
         for (i, st) in case.steps.iter().enumerate() {
             match st {
-                HStep::Doc { doc, rotate, acquire_faults, attest_faults } => {
+                HStep::Doc { doc, rotate, acquire_faults, attest_faults, foreign } => {
                     let had_faults = !acquire_faults.is_empty() || !attest_faults.is_empty();
-                    rig.run_step(Step { doc: Some(doc.to_json()), keep_doc: false, status_fault: None, acquire_faults: acquire_faults.clone(), attest_faults: attest_faults.clone(), rotate: *rotate, key_shape: None }, 2, timeout)
+                    rig.run_step(Step { doc: Some(doc.to_json()), keep_doc: false, status_fault: None, acquire_faults: acquire_faults.clone(), attest_faults: attest_faults.clone(), rotate: *rotate, rotate_foreign: *foreign, key_shape: None }, 2, timeout)
                         .map_err(|e| ("inconclusive".to_string(), format!("step {}: {}", i, e)))?;
                     // unconsumed fault scripts (no acquire was needed) are dropped by the next step; wait one more poll for good measure
                     trace = verif_hooks::take_policy_trace();
@@ -231,8 +238,23 @@ pub fn eval(rig: &KeeperRig, case: &Case, stats: &mut Stats) -> Outcome {
                     prev_ref = Some(rs);
                     prev_doc = doc.clone();
                     stats.class(if had_faults { "step:document-with-acquire/attest-faults" } else { "step:document" });
+                    if snap.key_guid.is_some() {
+                        // the agent's own clients sign with whatever the key keeper latched: the host verifies each request under
+                        // the key registered for the id it announces (C10: id and MAC belong to the same key)
+                        let ks = agent.shared.get_key_keeper_shared_state();
+                        rig.rt.block_on(async {
+                            let _ = azure_proxy_agent::host_clients::wire_server_client::WireServerClient::new("168.63.129.16", 80, ks.clone()).get_goalstate().await;
+                            let _ = azure_proxy_agent::host_clients::imds_client::ImdsClient::new("169.254.169.254", 80, ks).get_imds_instance_info().await;
+                        });
+                        stats.class("probe:signed-requests-by-the-agents-own-clients-after-convergence");
+                        let fails = rig.host.with(|s| s.signature_failures.clone());
+                        if let Some((sig, d)) = fails.first() {
+                            let sig = if sig.starts_with("signing:mac-does-not-verify") || sig.starts_with("signing:unknown-key-id") { "pairing:key-id-and-mac-belong-to-different-keys".to_string() } else { sig.clone() };
+                            return Err((sig, format!("step {} {:?}: agent holds key id {:?}, host latched {:?}: {}", i, st_brief(st), snap.key_guid, rig.host.with(|s| s.latched.clone()), d.chars().take(400).collect::<String>())));
+                        }
+                    }
                     if *rotate {
-                        stats.class("step:key-rotation");
+                        stats.class(if *foreign { "step:host-names-a-key-the-guest-never-stored" } else { "step:key-rotation" });
                     }
                 }
                 HStep::StatusFailure { fault } => {
@@ -279,13 +301,17 @@ pub fn eval(rig: &KeeperRig, case: &Case, stats: &mut Stats) -> Outcome {
             }
             Outcome::Pass
         }
+        Err((sig, _)) if pairing_only && !sig.starts_with("pairing:") => {
+            stats.class("ignored:failure-of-another-property");
+            Outcome::Pass
+        }
         Err((sig, d)) => Outcome::fail(sig, d),
     }
 }
 
 pub fn st_brief(s: &HStep) -> serde_json::Value {
     match s {
-        HStep::Doc { doc, rotate, acquire_faults, attest_faults } => serde_json::json!({"document": doc.to_json(), "rotate": rotate, "acquire_faults": acquire_faults, "attest_faults": attest_faults}),
+        HStep::Doc { doc, rotate, acquire_faults, attest_faults, foreign } => serde_json::json!({"document": doc.to_json(), "rotate": rotate, "host_names_a_key_the_guest_never_stored": foreign, "acquire_faults": acquire_faults, "attest_faults": attest_faults}),
         HStep::StatusFailure { fault } => serde_json::json!({"status_failure": fault}),
     }
 }
